@@ -122,6 +122,10 @@ func (g *gen) name() string {
 	for i := 0; i < d; i++ {
 		sb.WriteString("/")
 		sb.WriteString(kit.Pick(r, comps))
+		if r.Chance(0.01) {
+			// a long component: its length needs the 3-byte TLV length form (253 bytes and up)
+			sb.WriteString(strings.Repeat("x", kit.Pick(r, []int{251, 252, 253, 254, 299, 1000})))
+		}
 	}
 	if sb.Len() == 0 {
 		return "/" + kit.Pick(r, comps)
